@@ -2,7 +2,7 @@ SPECIFICATION Spec
 CONSTANTS
   PosIds = {1, 2, 3}
   SizeIds = {1, 2}
-  ThetaIds = {1, 2}
+  ThetaIds = {1, 2, 3}
   Reads = {"shape", "bbox", "mask", "phot", "area"}
   InheritedReads = {"shape"}
   Variant = "skip_inherited"
